@@ -963,7 +963,14 @@ void XdlEncoder::new_string(const char* x)
 		case '\f':
 			_out << "\\f"; break;
 		default:
-			_out << c;
+			if ((unsigned char)c < ' ')
+			{
+				char u[8];
+				snprintf(u, sizeof(u), "\\u%04x", (unsigned char)c);
+				_out << u;
+			}
+			else
+				_out << c;
 		}
 	}
 	_out << '\"';
